@@ -102,6 +102,18 @@ CHECKS.update({
                 technique="TLA+ model checking (TLC) + spec-generated offer sequences and sessions replayed on the real code",
                 note="Trusted: TLC; the fixture headers of the repository. The BTC split header's 80 bytes are not available "
                      "offline: its table entry is compared with the spec's constants and it shares the code path of the BCH entry."),
+    "C05": dict(level="model_checking", engine="blocksync", ref="3 C05",
+                text="NeverBelowStart, NeverProcessed, AscendingContiguous, NoLostTrigger and the temporal property SyncCompletes "
+                     "(weak fairness) checked by TLC on BlockSync.tla (rounds, restart flag and thread hand-over, new headers and "
+                     "reorganisations during a round, abandoning orphaned blocks). Every initial state (chain length x processed "
+                     "subset x start height) is exported and its round replayed on the real NodeManager + BlockManager + "
+                     "BlockDownloader with a real headers.Repository and a scripted block source; seed-chosen dynamic scenarios "
+                     "(triggers and headers mid-round, source failures, 1 and 2 concurrent downloads, reorg of a pending block) "
+                     "are recorded and validated by TLC (BlockSyncTrace) with the C05 invariants evaluated at every step; the "
+                     "trigger hand-over is stressed with aligned header arrivals.",
+                technique="TLA+ model checking incl. liveness (TLC) + scenario replay + trace validation by TLC",
+                note="Trusted: TLC; the scripted block source. Start heights >= 1 (the real genesis block cannot be fabricated). "
+                     "Known finding F-C05-1 (double processing by two near-simultaneous concurrent downloads) is reported, not judged."),
     "C15": dict(level="exploration", engine="hostile", ref="3 C15",
                 text="Byte-level universality cannot be model checked; the spec (PeerSession.tla) contributes the phase x message "
                      "class structure and the oracle: after any input a session is in sync or closed, there is no crash action. "
@@ -191,6 +203,8 @@ def main():
              "kind_free_text": "specs/PeerSession.tla, PeerSessionGen.tla, harness `sess` (scripted peer over net.Pipe)"},
             {"name": "split+session", "path": "lib/prop_c03.py", "serves_properties": ["C03"],
              "kind_free_text": "specs/SplitGuard.tla + harness `spl`; specs/PeerSession*.tla + harness `sess`"},
+            {"name": "blocksync", "path": "lib/prop_c05.py", "serves_properties": ["C05"],
+             "kind_free_text": "specs/BlockSync.tla, BlockSyncTrace.tla, harness `bsy` (rounds / traces / stress)"},
             {"name": "hostile", "path": "lib/prop_c15.py", "serves_properties": ["C15"],
              "kind_free_text": "harness `hostile` (isolated workers) with specs/PeerSession.tla as envelope"},
             {"name": "blockdownload", "path": "lib/prop_c16.py", "serves_properties": ["C16"],
